@@ -660,14 +660,14 @@ func checkC03(c *Ctx) {
 	c.RunCases("err", c.pick(200, 5000), 0, func(cs *Case) {
 		r := cs.R
 		s := genOCI(r)
-		var badHost HostNode
+		var bads []HostNode
 		for _, h := range hosts {
 			if h.Type == "" || h.Type == "missing" {
-				if badHost.Path == "" || chance(r, 50) {
-					badHost = h
-				}
+				bads = append(bads, h)
 			}
 		}
+		badHost := bads[r.Intn(len(bads))]
+		c.Count("error_host:"+filepath.Base(badHost.Path), 1)
 		n := &specs.DeviceNode{Path: "/dev/x", HostPath: badHost.Path}
 		if chance(r, 30) {
 			// type mismatch with a real node
